@@ -36,7 +36,7 @@ CHECKS = {
    "DESIGN.md §6 C02"),
  "C19": ("exploration", "ENUM",
    "bounded-exhaustive enumeration of HTTP methods x content-type strings, and of all body chunkings (differential against the single-frame request) through the real tower service",
-   "10 methods x ~36k content-type values (six accepted spellings in all letter-case variants, near misses, missing, duplicated) with status and invocation log checked against the statement; 17 bodies x every split into <=3 (thorough 4) chunks x empty/blank chunk inserted at every boundary x Content-Length present/absent, each compared (status, body, handler log) with the single-frame request of the same bytes.",
+   "10 methods x ~36k content-type values (six accepted spellings in all letter-case variants, near misses, missing, duplicated) with status and invocation log checked against the statement; 19 bodies x every split into <=3 (thorough 4) chunks x empty/blank chunk inserted at every boundary x Content-Length present/absent, each compared (status, body, handler log) with the single-frame request of the same bytes.",
    "The TowerService is called directly with an explicit frame-sequence body; hyper's HTTP/1.1 framing is not in the loop. Bodies outside the 17 are not covered.",
    "DESIGN.md §6 C19"),
  "C13": ("model_checking", "HIST",
